@@ -443,7 +443,20 @@ func (in *Interp) assert(name string, c *Term) {
 	case Unsat:
 		run.discharged++
 	case Sat:
-		in.violation("assert", name, "assertion "+name+" can fail", m, nil)
+		detail := "assertion " + name + " can fail"
+		if in.sched != nil {
+			if bl := in.sched.blockedList(); len(bl) > 0 {
+				detail += "; blocked goroutines: " + strings.Join(bl, "; ")
+			}
+			if n := len(in.sched.log); n > 0 {
+				lo := n - 12
+				if lo < 0 {
+					lo = 0
+				}
+				detail += "\nschedule tail: " + strings.Join(in.sched.log[lo:], " | ")
+			}
+		}
+		in.violation("assert", name, detail, m, nil)
 		// continue on the passing side if feasible
 	default:
 		run.unknown++
